@@ -86,6 +86,14 @@ Theorem C13_callback : forall w o,
 Proof. exact callback_fault_WFw. Qed.
 Print Assumptions C13_callback.
 
+(* ECrash really is the class of escaped callback exceptions: only an operation that invokes a
+   user callback (calc_data_id: add, shortcuts, set_data, rename, del, from_dict; sort key;
+   filter predicate) can end with it *)
+Theorem C13_crash_only_with_callback : forall w o,
+  fst (step w o) = Err ECrash -> may_invoke_callback o = true.
+Proof. exact crash_only_with_callback. Qed.
+Print Assumptions C13_crash_only_with_callback.
+
 (* ... as after any other failure *)
 Theorem C13_error_wf : forall w o e, WFw w -> fst (step w o) = Err e -> WFw (snd (step w o)).
 Proof. exact error_WFw. Qed.
